@@ -139,6 +139,24 @@ pub fn scripts(seed: u64) -> Vec<Script> {
             ],
         },
         Script {
+            name: "sorenson 24x19 (odd height): I, P with intra macroblocks in the clipped bottom row, D",
+            opts: 1,
+            calls: vec![
+                a(encode_bytes(&noise_intra(shdr(24, 19, 0, 0, 6, 0), seed ^ 11))),
+                a(p_pic(shdr(24, 19, 1, 1, 6, 0), &[Spec::Inter((3, -2), false), Spec::NotCoded, Spec::Intra, Spec::Intra], 2)),
+                a(p_pic(shdr(24, 19, 2, 2, 6, 0), &[Spec::Intra, Spec::Inter4V([(1, 1), (-2, 3), (4, -4), (0, 7)], true), Spec::NotCoded, Spec::Intra], 2)),
+            ],
+        },
+        Script {
+            name: "sorenson v1 19x24 (odd width): I, P with intra macroblocks in the clipped right column, P",
+            opts: 1,
+            calls: vec![
+                a(encode_bytes(&noise_intra(shdr(19, 24, 0, 0, 8, 1), seed ^ 12))),
+                a(p_pic(shdr(19, 24, 1, 1, 8, 1), &[Spec::NotCoded, Spec::Intra, Spec::Inter((-5, 6), true), Spec::Intra], 2)),
+                a(p_pic(shdr(19, 24, 1, 2, 8, 1), &[Spec::Intra, Spec::Intra, Spec::Intra, Spec::NotCoded], 2)),
+            ],
+        },
+        Script {
             name: "sorenson: I 16x16, P 16x16 all-not-coded, I 32x16",
             opts: 1,
             calls: vec![a(encode_bytes(&noise_intra(shdr(16, 16, 0, 0, 12, 1), seed ^ 6))), a(encode_bytes(&Pic { hdr: shdr(16, 16, 1, 1, 12, 1), mbs: vec![Mb::NotCoded] })), a(encode_bytes(&noise_intra(shdr(32, 16, 0, 2, 12, 0), seed ^ 7)))],
